@@ -133,19 +133,51 @@ Section SonicLCComplete.
       rewrite Hv. cbn [bind]. rewrite (IH ts _ eq_refl). cbn [bind fst snd combine map]. reflexivity.
   Qed.
 
+  (* ---- which combinations the prover accepts: polynomials without degree bounds, or one degree-bounded polynomial alone with
+     coefficient one (the bound policy refuses everything else) ---- *)
+  Lemma s_loop_num_ne1 (lm : list (N * (LPoly * Rand * F))) num : num <> 1%nat -> forall terms a a',
+    slc_prover_loop lm num terms a = Ok a' ->
+    forall co l lp st c, In (co, TPoly l) terms -> lookup N.compare l lm = Some (lp, st, c) -> lp_bound lp = None.
+  Proof.
+    intros Hn. induction terms as [|[c0 [|l]] t IH]; intros a a' H; cbn [slc_prover_loop] in H.
+    - intros ? ? ? ? ? [].
+    - intros co0 l0 lp st c [E|Hin]; [discriminate E|]. exact (IH _ _ H co0 l0 lp st c Hin).
+    - destruct (lookup N.compare l lm) as [[[lp st] cm]|] eqn:El; [|discriminate].
+      destruct (lp_bound lp) as [b|] eqn:Eb.
+      + cbn [bound_policy] in H. destruct (Nat.eqb_spec num 1); [contradiction|]. cbn [bind] in H. discriminate.
+      + cbn [bound_policy bind] in H. intros co0 l0 lp0 st0 c [E|Hin] Hl0.
+        * injection E as _ <-. rewrite El in Hl0. injection Hl0 as <- _ _. exact Eb.
+        * exact (IH _ _ H co0 l0 lp0 st0 c Hin Hl0).
+  Qed.
+
+  Lemma s_prover_cases (lm : list (N * (LPoly * Rand * F))) terms a0 a : slc_prover_loop lm (length terms) terms a0 = Ok a ->
+    (forall co l lp st c, In (co, TPoly l) terms -> lookup N.compare l lm = Some (lp, st, c) -> lp_bound lp = None) \/
+    exists c0 l lp st c b, terms = [(c0, TPoly l)] /\ feqb c0 f1 = true /\ lookup N.compare l lm = Some (lp, st, c) /\ lp_bound lp = Some b.
+  Proof.
+    intros H. destruct terms as [|t1 [|t2 rest]].
+    - left. intros ? ? ? ? ? [].
+    - destruct t1 as [c0 [|l]].
+      + left. intros co0 l0 lp st c [E|[]]. discriminate E.
+      + cbn [length slc_prover_loop] in H.
+        destruct (lookup N.compare l lm) as [[[lp st] c]|] eqn:El; [|discriminate].
+        destruct (lp_bound lp) as [b|] eqn:Eb.
+        * right. cbn [bound_policy Nat.eqb] in H. destruct (feqb c0 f1) eqn:Ec; [|discriminate].
+          exists c0, l, lp, st, c, b. repeat split; assumption.
+        * left. intros co0 l0 lp0 st0 c1 [E|[]] Hl0. injection E as _ <-. rewrite El in Hl0. injection Hl0 as <- _ _. exact Eb.
+    - left. apply (s_loop_num_ne1 lm (length (t1 :: t2 :: rest))) with (a := a0) (a' := a); [cbn [length]; lia|exact H].
+  Qed.
+
   Theorem sonic_lc_complete lcs items cs qs ev chal vtape pfs rest :
     s_lm_honest vk h g gam beta m (s_label_map items) ->
     sl_agree (s_label_map items) (s_comm_map cs) ->
     NoDup (map fst lcs) ->
-    (forall l co lab lp st c, In l lcs -> In (co, TPoly lab) (snd l) ->
-        lookup N.compare lab (s_label_map items) = Some (lp, st, c) -> lp_bound lp = None) ->
     (forall pl pt labels lab terms, In (pl, (pt, labels)) (group_queries qs) -> In lab labels -> In (lab, terms) lcs ->
         lookup qkey_cmp (lab, pt) (evals_map ev) = Some (lc_value (s_poly_of (s_label_map items) pt) terms)) ->
     (length (group_queries qs) <= length vtape)%nat ->
     s_open_combinations ck lcs items qs chal = Ok (pfs, rest) ->
     s_check_combinations vk lcs cs qs ev pfs chal vtape = Ok (true, rest, length (group_queries qs)).
   Proof.
-    intros Hh Ha Hd Hnb Hcl Lt H. unfold s_open_combinations in H.
+    intros Hh Ha Hd Hcl Lt H. unfold s_open_combinations in H.
     set (lm := s_label_map items) in *.
     destruct (mapM (slc_prover_one lm) lcs) as [trip| |] eqn:Em; cbn [bind] in H; try discriminate.
     unfold s_check_combinations. rewrite (verifier_all_follows lm (s_comm_map cs) Ha lcs trip _ Em). cbn [bind fst snd].
@@ -157,8 +189,19 @@ Section SonicLCComplete.
               forall x, eval (lp_poly (fst (fst t))) x + lc_const (snd l) = lc_value (s_poly_of lm x) (snd l)).
     { intros l [[lp st] c] Hin. pose proof (I2 _ _ Hin) as Ep. cbn [fst snd].
       assert (Hl : In l lcs) by (eapply in_combine_l; exact Hin).
-      destruct (slc_prover_one_unbounded vk h g gam beta m lm l lp st c Hh (fun co lab lp' st' c' Ht Hlk => Hnb l co lab lp' st' c' Hl Ht Hlk) Ep)
-        as (A1 & A2 & A3 & _ & A5). repeat split; assumption. }
+      assert (Elab : lp_label lp = fst l).
+      { unfold slc_prover_one in Ep. destruct (slc_prover_loop lm (length (snd l)) (snd l) _) as [a| |]; cbn [bind] in Ep; try discriminate.
+        injection Ep as <- _ _. reflexivity. }
+      assert (Ecases : (forall co lab lp' st' c', In (co, TPoly lab) (snd l) -> lookup N.compare lab lm = Some (lp', st', c') -> lp_bound lp' = None) \/
+                       exists c0 l1 lp1 st1 c1 b, snd l = [(c0, TPoly l1)] /\ feqb c0 f1 = true /\ lookup N.compare l1 lm = Some (lp1, st1, c1) /\ lp_bound lp1 = Some b).
+      { unfold slc_prover_one in Ep. destruct (slc_prover_loop lm (length (snd l)) (snd l) _) as [a| |] eqn:EL; cbn [bind] in Ep; try discriminate.
+        exact (s_prover_cases lm (snd l) _ a EL). }
+      destruct Ecases as [Hnb|(c0 & l1 & lp1 & st1 & c1 & b & Et & Hc0 & El1 & Eb1)].
+      - destruct (slc_prover_one_unbounded vk h g gam beta m lm l lp st c Hh Hnb Ep) as (A1 & A2 & A3 & _ & A5). repeat split; assumption.
+      - apply FL_eqb in Hc0. subst c0. destruct l as [lab0 terms0]. cbn [fst snd] in *. subst terms0.
+        destruct (slc_prover_one_bounded_single vk h g gam beta m lm lab0 l1 lp1 st1 c1 b lp st c Hh El1 Eb1 Ep) as (A1 & A2 & A3 & A4).
+        split; [exact A1|]. split; [exact Elab|]. split; [rewrite A2; exact A3|].
+        intros x. cbn [lc_const lc_value term_value]. unfold s_poly_of. rewrite El1, A4. ring. }
     assert (Hkeys : map fst (map (fun lt : lcomb * (LPoly * Rand * (F * option nat)) => (fst (fst lt), snd (snd lt))) (combine lcs trip)) = map fst lcs).
     { rewrite map_map. cbn [fst]. clear - I3. revert trip I3. induction lcs as [|l t IH]; intros [|x trip] I3; cbn in I3; try lia; [reflexivity|].
       cbn [combine map fst]. f_equal. apply IH. lia. }
